@@ -29,3 +29,8 @@ claim('C14',
       note="Trusted: the round trip is its own oracle; values must be bit-identical at precision>=17. Labels avoid double quotes/newlines (the format quotes labels); magnitudes are limited to 1e300 as the property states.",
       technique="property-based testing (Hypothesis) with a round-trip oracle",
       design_ref="DESIGN.md 3/C14")
+claim('C02',
+      text="Each of the 15 per-axis kernels, the 5 precomputed-coefficient kernels, the tridiagonal solver and the five public drivers (single step, constant and function-valued parameters) is compared entry by entry with an independent dense assembly of the flux-form scheme solved by LU, over generated grids (per-axis grids of different values), densities and the full parameter box with both delj settings; multi-step constant-vs-function agreement in 1-3 populations; an overflow-region relation for the delj switch.",
+      note="Trusted: harness/refs/fd_scheme.py (written from the scheme, assembles the operator by applying the flux form to unit vectors) and numpy.linalg. Absorbing-corner coefficient taken from the code. With delj on, tolerance widens by 50*eps/min|u| (conditioning of the documented weight formula) and cases beyond 1e-4 are not judged. Square arrays only (one grid length for all axes, as the public API assumes). A worker crash inside a kernel is reported as a violation with the in-progress case.",
+      technique="property-based differential testing (Hypothesis) of compiled kernels and drivers against a dense LU reference",
+      design_ref="DESIGN.md 3/C02")
